@@ -137,7 +137,7 @@ impl Prop for C11 {
     }
     fn rule(&self) -> String {
         format!(
-            "generated: FirFilter<f32|Complex> (1-200 taps: random, windowed-sinc, impulse, moving average; decimation 1-8), FftFilter, FftFilterFloat, Hilbert, SinglePoleIirFilter, QuadratureDemod, FastFM under drip schedules (all chunkings), Fir::filter/filter_n/filter_float on identical data, IirFilter::filter/filter_clamped, low_pass/low_pass_complex x 4 window types; inputs random/impulse/step/sinusoid, finite, |x| <= 1e3, length 0..6k (thorough 20k). Oracle: f64 reference computations of the defining formulas (FIR block output k = sum taps[j] x[k*deci+ntaps-1-j]; FFT filter y[k] = sum taps[j] x[k-j] with zero pre-history, hence FIR[k] == FFT[k+ntaps-1]; float variant = real part; IIR recurrences with a running rounding-error bound; QuadDemod = gain*arg(s*conj(prev)); FastFM's difference formula bit-exactly; Hilbert = (delayed input, FIR of the Hilbert taps); low_pass taps symmetric with unit DC gain). Stated tolerance, not tuned per case: |err| <= 64*eps32*sum|t|*max|x| for direct forms, <= 16*eps32*log2(fft_size)*sum|t|*max|x| + 1e-30 for FFT paths; exact output counts. Build variant: {} (the thorough tier also runs a build with -C target-feature=+avx,+sse3 so that the AVX dot product is the one under test). Non-trivial: >= 2 taps and input longer than one FFT block / FIR window with a chunk boundary inside (drip run with > 3 work calls); distinct = hash of the case.",
+            "generated: FirFilter<f32|Complex> (1-200 taps: random, windowed-sinc, impulse, moving average; decimation 1-8), FftFilter, FftFilterFloat, Hilbert, SinglePoleIirFilter, QuadratureDemod, FastFM under drip schedules (all chunkings), Fir::filter/filter_n/filter_float on identical data, IirFilter::filter/filter_clamped, low_pass/low_pass_complex x 4 window types; inputs random/impulse/step/sinusoid, finite, |x| <= 1e3, length 0..6k (thorough 20k). Oracle: f64 reference computations of the defining formulas (FIR block output k = sum taps[j] x[k*deci+ntaps-1-j]; FFT filter y[k] = sum taps[j] x[k-j] with zero pre-history, hence FIR[k] == FFT[k+ntaps-1]; float variant = real part; IIR recurrences with a running rounding-error bound; QuadDemod = gain*arg(s*conj(prev)), with 0 or +-gain*pi where the product is exactly zero (gated inputs); FastFM's difference formula bit-exactly; Hilbert = (delayed input, FIR of the Hilbert taps); low_pass taps symmetric with unit DC gain). Stated tolerance, not tuned per case: |err| <= 64*eps32*sum|t|*max|x| for direct forms, <= 16*eps32*log2(fft_size)*sum|t|*max|x| + 1e-30 for FFT paths; exact output counts. Build variant: {} (the thorough tier also runs a build with -C target-feature=+avx,+sse3 so that the AVX dot product is the one under test). Non-trivial: >= 2 taps and input longer than one FFT block / FIR window with a chunk boundary inside (drip run with > 3 work calls); distinct = hash of the case.",
             variant()
         )
     }
@@ -325,7 +325,23 @@ fn run_block(case: &DripCase, ctx: &mut Ctx) {
                 let im = s.im as f64 * prev.re as f64 - s.re as f64 * prev.im as f64;
                 let mag = (re * re + im * im).sqrt();
                 let scale = (s.norm() as f64) * (prev.norm() as f64);
+                let exact_zero = (s.re == 0.0 && s.im == 0.0) || (prev.re == 0.0 && prev.im == 0.0);
                 prev = s;
+                if exact_zero {
+                    // s * conj(prev) is exactly (+-0, +-0): its argument is atan2 of two signed
+                    // zeroes, i.e. 0 or +-pi depending on the signs the product formula yields
+                    let a = (*g as f64).abs();
+                    let pi_g = (*gain as f64).abs() * std::f64::consts::PI;
+                    let tol0 = (*gain as f64).abs() * 8.0 * EPS * std::f64::consts::PI + 1e-30;
+                    if a > tol0 && (a - pi_g).abs() > tol0 {
+                        return fail(
+                            ctx,
+                            "value",
+                            format!("output {k} = {g} although sample {k} or its predecessor is exactly zero: gain*arg(0) is 0 or +-{pi_g}"),
+                        );
+                    }
+                    continue;
+                }
                 if mag <= 1e-30 || mag < 1e-3 * scale {
                     continue; // angle of (nearly) zero is not defined
                 }
